@@ -187,6 +187,77 @@ class SchedulerStuck(Exception):
     pass
 
 
+_TABLES: Dict[Any, Dict[int, Tuple[str, str]]] = {}
+
+
+class _Worker:
+    """One long-lived real worker thread per process (starting a thread per case is slow here);
+    each job is a callable run on that thread."""
+
+    def __init__(self):
+        import queue
+
+        self.pid = os.getpid()
+        self.jobs: "queue.Queue" = queue.Queue()
+        self.done = threading.Event()
+        self.thread = threading.Thread(target=self._main, name="c20-worker", daemon=True)
+        self.thread.start()
+
+    def _main(self):
+        sys.settrace(_glob_w)  # stays on; it dispatches to the Exec that is current, if any
+        while True:
+            job = self.jobs.get()
+            try:
+                job()
+            finally:
+                self.done.set()
+
+    def submit(self, job):
+        self.done.clear()
+        self.jobs.put(job)
+
+    def join(self, timeout: float) -> bool:
+        return self.done.wait(timeout)
+
+
+_WORKER: Optional[_Worker] = None
+_CUR: Optional["Exec"] = None  # the execution whose threads are being traced right now
+_TRACING_PID = None
+
+
+def _glob_l(frame, event, arg):
+    ex = _CUR
+    return None if ex is None else ex.glob("L", frame)
+
+
+def _glob_w(frame, event, arg):
+    ex = _CUR
+    return None if ex is None else ex.glob("W", frame)
+
+
+def tracing_on():
+    """Install the loop-thread tracer once per process (switching sys.settrace on and off for every
+    case makes CPython 3.12 re-instrument every code object each time)."""
+    global _TRACING_PID
+    if _TRACING_PID != os.getpid() or sys.gettrace() is not _glob_l:
+        sys.settrace(_glob_l)
+        _TRACING_PID = os.getpid()
+
+
+def tracing_off():
+    global _TRACING_PID
+    if sys.gettrace() is _glob_l:
+        sys.settrace(None)
+    _TRACING_PID = None
+
+
+def _worker() -> _Worker:
+    global _WORKER
+    if _WORKER is None or _WORKER.pid != os.getpid() or not _WORKER.thread.is_alive():
+        _WORKER = _Worker()
+    return _WORKER
+
+
 class Exec:
     def __init__(self, env: Env, switch_l, switch_w, start: str, gran: str):
         self.env = env
@@ -200,11 +271,13 @@ class Exec:
         self.yields = {"L": 0, "W": 0}
         self.yield_info: Dict[str, List[Tuple[str, int, bool, int]]] = {"L": [], "W": []}
         self.log: List[str] = []
-        self.tables: Dict[Any, Dict[int, Tuple[str, str]]] = {}
+        self.tables = _TABLES  # per code object, shared by all executions in the process
         self.capture = False
         self.objects: List[Any] = [env.char.value]  # identity classes of the objects stored in _value
         self.write_ids: List[int] = []  # for the worker's successive writes of _value
         self.topic_key = env.topic in env.driver.topics
+        self.pyhap_dir = _pyhap_dir()
+        self.local = {"L": self.make_local("L"), "W": self.make_local("W")}
         self.worker_error: Optional[BaseException] = None
         self.worker_outcomes: List[str] = []
         self.results: List[Any] = []
@@ -239,13 +312,11 @@ class Exec:
         return t
 
     # -- tracing ---------------------------------------------------------------------------------
-    def tracer(self, tid: str):
-        pyhap_dir = _pyhap_dir()
-
+    def make_local(self, tid: str):
         def local(frame, event, arg):
             if event == "line":
                 self.sync(tid)
-                if self.gran == "line" or not self.table(frame.f_code):
+                if self.gran == "line" or not frame.f_trace_opcodes:
                     self.yield_point(tid, frame)
             elif event == "opcode":
                 self.sync(tid)
@@ -259,16 +330,18 @@ class Exec:
                 self.sync(tid)
             return local
 
-        def glob(frame, event, arg):
-            if not frame.f_code.co_filename.startswith(pyhap_dir):
-                return None
-            if self.table(frame.f_code):
-                frame.f_trace_opcodes = True
-                return local
-            # outside the scheduled section only the access log matters: no line events needed
-            return local if self.scheduled else None
+        return local
 
-        return glob
+    def glob(self, tid: str, frame):
+        if not frame.f_code.co_filename.startswith(self.pyhap_dir):
+            return None
+        if self.table(frame.f_code):
+            who = frame.f_locals.get("self")
+            if who is self.env.char or who is self.env.driver:
+                frame.f_trace_opcodes = True
+                return self.local[tid]
+        # outside the scheduled section only the access log matters: no line events needed
+        return self.local[tid] if self.scheduled else None
 
     def sync(self, tid: str):
         """Register effects of the instruction that just completed (no yield can lie in between)."""
@@ -325,7 +398,6 @@ class Exec:
                 raise SchedulerStuck(f"thread {tid} waited 30 s for its turn")
 
     def worker_main(self, updates: List[Any]):
-        sys.settrace(self.tracer("W"))
         try:
             with self.cv:
                 self.wait_turn_locked("W")
@@ -338,7 +410,6 @@ class Exec:
         except BaseException as ex:  # noqa: BLE001
             self.worker_error = ex
         finally:
-            sys.settrace(None)
             self.sync("W")
             with self.cv:
                 self.runnable["W"] = False
@@ -388,45 +459,42 @@ class Exec:
 
     def run(self, prologue, loop_ops, updates, epilogue):
         """Prologue (solo), the scheduled section (both threads), epilogue (solo)."""
-        tr = self.tracer("L")
-        sys.settrace(tr)
+        global _CUR
+        keep = sys.gettrace() is _glob_l
+        tracing_on()
+        _CUR = self
         try:
             for op in prologue:
                 self.do_op(op)
-        finally:
-            sys.settrace(None)
-        self.n_prologue_log = len(self.log)
-        wt = threading.Thread(target=self.worker_main, args=(updates,), name="c20-worker", daemon=True)
-        with self.cv:
-            self.turn = self.start
-            self.runnable = {"L": True, "W": True}
-            self.scheduled = True
-        wt.start()
-        sys.settrace(tr)
-        try:
+            self.n_prologue_log = len(self.log)
+            wt = _worker()
             with self.cv:
-                self.wait_turn_locked("L")
-            for op in loop_ops:
-                self.do_op(op)
-        finally:
-            sys.settrace(None)
-            with self.cv:
-                self.runnable["L"] = False
-                self.turn = "W"
-                self.cv.notify_all()
-        wt.join(60)
-        if wt.is_alive():
-            raise SchedulerStuck("worker thread did not finish")
-        self.scheduled = False
-        if self.worker_error is not None:
-            raise self.worker_error
-        self.n_scheduled_log = len(self.log)
-        sys.settrace(tr)
-        try:
+                self.turn = self.start
+                self.runnable = {"L": True, "W": True}
+                self.scheduled = True
+            wt.submit(lambda: self.worker_main(updates))
+            try:
+                with self.cv:
+                    self.wait_turn_locked("L")
+                for op in loop_ops:
+                    self.do_op(op)
+            finally:
+                with self.cv:
+                    self.runnable["L"] = False
+                    self.turn = "W"
+                    self.cv.notify_all()
+                if not wt.join(60):
+                    raise SchedulerStuck("worker thread did not finish")
+                self.scheduled = False
+            if self.worker_error is not None:
+                raise self.worker_error
+            self.n_scheduled_log = len(self.log)
             for op in epilogue:
                 self.do_op(op)
         finally:
-            sys.settrace(None)
+            _CUR = None
+            if not keep:
+                tracing_off()
 
 
 # ------------------------------------------------------------------------------------------------
@@ -630,7 +698,8 @@ def gen_cases(ctx: Ctx) -> List[Tuple[str, Dict[str, Any]]]:
             for k in sweep_points(solo["yield_info"]["L"]):
                 cases.append((f"single/{name}", dict(sc, switchL=[k])))
             # (B) mirror image: the whole loop operation lands inside set_value
-            for k in sweep_points(solo["yield_info"]["W"]):
+            skip_reverse = ctx.quick and kind != "int"
+            for k in ([] if skip_reverse else sweep_points(solo["yield_info"]["W"])):
                 cases.append((f"reverse/{name}", dict(sc, start="W", switchW=[k])))
             # (C) double preemption: two updates at two points
             if name in ("toHAP-cold", "toHAP-warm", "read-read", "sub-first", "drain-flush"):
@@ -642,7 +711,7 @@ def gen_cases(ctx: Ctx) -> List[Tuple[str, Dict[str, Any]]]:
                 pairs = [(i, j) for ii, i in enumerate(rel) for j in rel[ii:]]
                 if ctx.quick:
                     rng.shuffle(pairs)
-                    pairs = pairs[:12]
+                    pairs = pairs[:40]
                 for i, j in pairs:
                     cases.append((f"double/{name}", dict(two, switchL=sorted({i, j}) if i != j else [i],
                                                          switchW=[first_len] if i != j else [])))
@@ -658,12 +727,16 @@ def gen_cases(ctx: Ctx) -> List[Tuple[str, Dict[str, Any]]]:
             for k in sweep_points(solo["yield_info"]["W"]):
                 cases.append((f"reverse-opcode/{name}", dict(sc, start="W", switchW=[k])))
     # (E) random programs under random fine-grained schedules
-    for _ in range(ctx.n(120, 2500)):
+    for _ in range(ctx.n(500, 6000)):
         cases.append(("random", random_case(rng)))
     return cases
 
 
+# functions of the characteristic that touch a shared variable (the rest of set_value / to_valid_value /
+# valid_value_or_raise only computes on locals)
+_CHAR_FUNCS = {"to_HAP", "get_value", "value", "_clear_cache", "notify", "set_value"}
 _DRIVER_FUNCS = {
+    "publish",
     "get_characteristics", "async_subscribe_client_topic", "async_send_event", "push_event", "queue_event",
     "_send_events", "_event_queue_with_active_subscriptions",
 }
@@ -692,7 +765,7 @@ def sweep_points(info: List[Tuple[str, int, bool, int]]) -> List[int]:
     point after the thread's last line."""
     pts, seen = [], set()
     for i, inf in enumerate(info):
-        relevant = inf[2] or inf[0] in _DRIVER_FUNCS
+        relevant = (inf[2] and inf[0] in _CHAR_FUNCS) or inf[0] in _DRIVER_FUNCS
         if relevant or inf[3] not in seen:
             pts.append(i)
         seen.add(inf[3])
@@ -785,6 +858,7 @@ def _minimise(case: Dict[str, Any], sig: str) -> Dict[str, Any]:
 
 
 def _run_slim(case: Dict[str, Any]) -> Dict[str, Any]:
+    tracing_on()  # stays on for the whole batch in this process
     r = run_case(case)
     r.pop("yield_info", None)
     return r
@@ -793,13 +867,16 @@ def _run_slim(case: Dict[str, Any]) -> Dict[str, Any]:
 def run_cases(cases: List[Dict[str, Any]]) -> List[Dict[str, Any]]:
     """Real-code runs, spread over a few processes (each run has its own two threads)."""
     if len(cases) < 40:
-        return [_run_slim(c) for c in cases]
+        try:
+            return [_run_slim(c) for c in cases]
+        finally:
+            tracing_off()
     import multiprocessing as mp
     from concurrent.futures import ProcessPoolExecutor
 
     import pyhap.accessory_driver  # noqa: F401  (import before forking)
 
-    workers = max(2, min(8, (os.cpu_count() or 4) // 2))
+    workers = max(2, min(16, os.cpu_count() or 4))
     with ProcessPoolExecutor(workers, mp_context=mp.get_context("fork")) as ex:
         return list(ex.map(_run_slim, cases, chunksize=max(1, min(50, len(cases) // (workers * 4)))))
 
@@ -872,8 +949,12 @@ def run(ctx: Ctx):
         "one characteristic without getter_callback, not always-null, not immediate-notify; updates only from the "
         "worker thread (no concurrent controller write)",
     ]
-    cases = gen_cases(ctx)
-    _evaluate(ctx, cases)
+    tracing_on()
+    try:
+        cases = gen_cases(ctx)
+        _evaluate(ctx, cases)
+    finally:
+        tracing_off()
     st.exhaustive = False
     st.notes.append(
         "in-flight reads that returned None (to_HAP preempted between `if cache is not None` and `return cache`) "
@@ -886,11 +967,14 @@ def search(ctx: Ctx):
     """Deeper failing-input search on the real code (oracle only)."""
     saved = ctx.tier
     ctx.tier = "thorough"
+    tracing_on()
     try:
         cases = gen_cases(ctx)
+        ctx.tier = saved
+        _evaluate(ctx, cases, correspond=False)
     finally:
         ctx.tier = saved
-    _evaluate(ctx, cases, correspond=False)
+        tracing_off()
 
 
 def replay(ctx: Ctx, r):
